@@ -68,6 +68,9 @@ AllStmts ==
   \cup {St(EDo(<<EAsg(m, EId(n))>>, ENum(0)), "") : n \in Vars, m \in Vars}
   \cup {St(EAsg(n, ECall(EId("max"), <<EAsg(m, ENum(3)), N1>>)), "") : n \in Vars, m \in Vars}   \* n = max(m = 3, 1), incl. n = m: the call is the whole right-hand side
   \cup {St(EAsg(n, ECall(ELam(<<Req("x")>>, EId("x")), <<EAsg(m, ENum(3))>>)), "") : n \in Vars, m \in Vars}
+  \cup {St(ECall(ELam(<<>>, EAsg(n, ENum(4))), <<>>), "") : n \in Vars}                          \* (() => n = 4)(): nothing to bind but the body's own name
+  \cup {St(ECall(ELam(<<>>, Plus(EAsg(n, ENum(4)), EId(m))), <<>>), "") : n \in Vars, m \in Vars}  \* the same, capturing m
+  \cup {St(ECall(EDot(ERec(<<RStatic(<<12>>, ELam(<<>>, EAsg(n, ENum(0))))>>), <<12>>), <<>>), "") : n \in Vars}   \* {a: () => n = 0}.a()
   \cup {St(EDo(<<>>, EAsg(n, ENum(9))), "") : n \in Vars}                                    \* do { return n = 9 }: a block without statements
   \cup {St(EAsg(n, EDo(<<>>, EAsg(m, ENum(8)))), "") : n \in Vars, m \in Vars}               \* n = do { return m = 8 }
   \cup {St(EAsg(n, EDo(<<EAsg(m, ENum(6))>>, EAsg(m, Plus(EId(m), N1)))), "") : n \in Vars, m \in Vars}
